@@ -158,12 +158,14 @@ def tfn(nv: Tuple[Any, Any]) -> Tuple[Any, Any, Any]:
 
 
 def rule_tfno(rule: Dict[str, Any], env: Dict[str, Tuple[Any, Any]]) -> Tuple[Any, Any, Any, Any]:
-    """(certainly TRUE, FALSE, certainly NULL, open[TRUE or NULL: antecedent NULL]) of a datapoint rule."""
+    """(TRUE, FALSE, NULL, open) of a datapoint rule over a symbolic datapoint with nullable components.  `when A then C`:
+    C where A is TRUE, TRUE where A is FALSE, NULL where A is NULL (spec/vtlref_validation.NULL_ANTECEDENT_SOURCES);
+    nothing is left open any more (4th component kept for the callers' signature)."""
     tt, tf, tn = tfn(s_cond(rule["then"], env))
     if rule.get("when") is None:
         return tt, tf, tn, False
     wt, wf, wn = tfn(s_cond(rule["when"], env))
-    return Or(wf, And(wt, tt)), And(wt, tf), And(wt, tn), wn
+    return Or(wf, And(wt, tt)), And(wt, tf), Or(And(wt, tn), wn), False
 
 
 # ---- SV helpers ----------------------------------------------------------------------------------------------------------------
@@ -333,7 +335,7 @@ def p_datapoint_rules(chk: Check) -> None:
                                   on_value(lambda sel, cols: sel), rows.vars, replay, fkey)
                     BATCH.add(chk, eng,f, f"{base}::bool_var-is-rule-value",
                                   "bool_var = VTL value of the rule: consequent when the antecedent is TRUE, TRUE when it is "
-                                  "FALSE, never FALSE when it is NULL (TRUE/NULL left open)", paths, [],
+                                  "FALSE, NULL when it is NULL (symbolic nullable antecedent)", paths, [],
                                   on_value(lambda sel, cols, T_=T_, F_=F_, N_=N_, O_=O_: Implies(sel, bool_var_ok(cols, T_, F_, N_, O_))),
                                   rows.vars, replay, fkey)
                 for col, val in (("errorcode", rule.get("erCode")), ("errorlevel", rule.get("erLevel"))):
